@@ -243,6 +243,26 @@ func checkC11(w *World) {
 				userL, builtinL, lookupFn = u, b, g
 			}
 		}
+		merged := false
+		if userL == nil {
+			// one table per query: the only lookup reads a private map of the context; how that map is filled decides
+			// who wins
+			var only *ssa.Lookup
+			for _, g := range lcands {
+				allInstrs(g, func(in ssa.Instruction) {
+					if lk, ok := in.(*ssa.Lookup); ok && settingsFieldName(lk.X) == "builtinFunctions" {
+						only = lk
+					}
+				})
+			}
+			if only != nil {
+				if ok, why, decided := w.mergedFunctionTable(only); decided {
+					merged = true
+					w.check(P, "R11.1", "user library before builtins", only.Pos(), ok, why)
+					userL, builtinL, lookupFn = only, only, only.Parent()
+				}
+			}
+		}
 		if userL == nil || builtinL == nil {
 			w.undecided(P, "R11.1", "function lookup", h.Fn.Pos(), fmt.Sprintf("lookups found: user library %v, builtin table %v", userL != nil, builtinL != nil))
 		} else {
@@ -252,7 +272,9 @@ func checkC11(w *World) {
 					guarded = true
 				}
 			}
-			w.check(P, "R11.1", "user library before builtins", builtinL.Pos(), guarded, fmt.Sprintf("the builtin table is consulted only when the user library has no function of that name: %v", guarded))
+			if !merged {
+				w.check(P, "R11.1", "user library before builtins", builtinL.Pos(), guarded, fmt.Sprintf("the builtin table is consulted only when the user library has no function of that name: %v", guarded))
+			}
 			sameKey := userL.Index == builtinL.Index
 			keyOrigin := ""
 			keyV := userL.Index
@@ -1286,4 +1308,143 @@ func (w *World) settingsOptions(P string, r *Roles) {
 		w.check(P, "R11.6", "option "+name, fn.Pos(), ok, fmt.Sprintf("binds the name in no namespace (%sNS(\"\", local, value) or %sName(XmlName{Local: local}, value)): %v", name, name, ok))
 	}
 	w.floor(P, "R11.6", 8)
+}
+
+// mergedFunctionTable: the function-call handler resolves names in one private map of the context. The values stored
+// into that field are examined: the package-level builtin table itself (the user's library is never consulted), or the
+// result of a builder that fills a fresh map from the user's library and from the builtin table - then the entries
+// written last win, so the library must be copied after the builtins (or the builtins only into free slots).
+func (w *World) mergedFunctionTable(lk *ssa.Lookup) (ok bool, why string, decided bool) {
+	ld, isLd := lk.X.(*ssa.UnOp)
+	if !isLd {
+		return false, "", false
+	}
+	fa, isFA := ld.X.(*ssa.FieldAddr)
+	if !isFA {
+		return false, "", false
+	}
+	ctxT := fa.X.Type()
+	isBuiltinGlobal := func(v ssa.Value) bool {
+		l, ok := v.(*ssa.UnOp)
+		if !ok {
+			return false
+		}
+		g, ok := l.X.(*ssa.Global)
+		if !ok {
+			return false
+		}
+		mt, ok := g.Type().(*types.Pointer).Elem().Underlying().(*types.Map)
+		if !ok {
+			return false
+		}
+		_, isSig := mt.Elem().Underlying().(*types.Signature)
+		return isSig
+	}
+	var builders []*ssa.Call
+	direct := false
+	w.forAllFuncs("exec", func(fn *ssa.Function) {
+		allInstrs(fn, func(in ssa.Instruction) {
+			st, ok := in.(*ssa.Store)
+			if !ok {
+				return
+			}
+			f2, ok := st.Addr.(*ssa.FieldAddr)
+			if !ok || f2.Field != fa.Field || !types.Identical(f2.X.Type(), ctxT) {
+				return
+			}
+			switch v := st.Val.(type) {
+			case *ssa.Call:
+				if sc := staticCallee(v); sc != nil && fnPkgKey(sc) == "exec" && len(sc.Blocks) > 0 {
+					builders = append(builders, v)
+				}
+			default:
+				if isBuiltinGlobal(st.Val) {
+					direct = true
+				}
+			}
+		})
+	})
+	if direct && len(builders) == 0 {
+		return false, "the only table consulted is the builtin table: a function of the query's FunctionLibrary is never found", true
+	}
+	if len(builders) == 0 {
+		return false, "", false
+	}
+	for _, call := range builders {
+		g := staticCallee(call)
+		// the parameter that receives the user's library
+		var lib *ssa.Parameter
+		for i, a := range call.Call.Args {
+			if i < len(g.Params) && settingsFieldName(a) == "FunctionLibrary" {
+				lib = g.Params[i]
+			}
+		}
+		if lib == nil {
+			return false, "", false
+		}
+		// range loops: block of the Next instruction -> what is ranged over
+		var libHdr, builtinHdr *ssa.BasicBlock
+		var builtinUpd *ssa.MapUpdate
+		allInstrs(g, func(in ssa.Instruction) {
+			switch x := in.(type) {
+			case *ssa.Next:
+				rg, ok := x.Iter.(*ssa.Range)
+				if !ok {
+					return
+				}
+				if rg.X == ssa.Value(lib) {
+					libHdr = x.Block()
+				} else if isBuiltinGlobal(rg.X) {
+					builtinHdr = x.Block()
+				}
+			}
+		})
+		if libHdr == nil || builtinHdr == nil {
+			return false, "", false
+		}
+		allInstrs(g, func(in ssa.Instruction) {
+			if mu, ok := in.(*ssa.MapUpdate); ok && builtinHdr.Dominates(mu.Block()) && !libHdr.Dominates(mu.Block()) {
+				builtinUpd = mu
+			} else if ok && builtinHdr.Dominates(mu.Block()) && libHdr.Dominates(builtinHdr) && builtinUpd == nil {
+				// both headers dominate it: the later loop's update
+				if sliceContains(mu.Value, func(v ssa.Value) bool {
+					ex, ok := v.(*ssa.Extract)
+					if !ok {
+						return false
+					}
+					nx, ok := ex.Tuple.(*ssa.Next)
+					return ok && nx.Block() == builtinHdr
+				}) {
+					builtinUpd = mu
+				}
+			}
+		})
+		switch {
+		case builtinHdr.Dominates(libHdr):
+			// builtins first, the library's entries overwrite them
+		case libHdr.Dominates(builtinHdr):
+			guarded := false
+			if builtinUpd != nil {
+				for _, a := range guardAtoms(builtinUpd.Block()) {
+					// `if _, taken := table[name]; !taken` / `if table[name] == nil`
+					if ex, ok := a.V.(*ssa.Extract); ok && !a.Pol {
+						if l2, ok := ex.Tuple.(*ssa.Lookup); ok && l2.X == builtinUpd.Map {
+							guarded = true
+						}
+					}
+					if bo, ok := a.V.(*ssa.BinOp); ok && isNilConst(bo.Y) {
+						if l2, ok := bo.X.(*ssa.Lookup); ok && l2.X == builtinUpd.Map && ((bo.Op == token.EQL && a.Pol) || (bo.Op == token.NEQ && !a.Pol)) {
+							guarded = true
+						}
+					}
+				}
+			}
+			if !guarded {
+				return false, fmt.Sprintf("%s copies the builtin table into the merged table after the query's FunctionLibrary: a builtin overwrites the user's function of the same name", g.Name()), true
+			}
+		default:
+			return false, "", false
+		}
+	}
+	return true, "the merged table is filled with the builtins first and the query's FunctionLibrary second (or builtins only into free slots): the user's function wins", true
 }
